@@ -479,6 +479,12 @@ func readPatchDiffElement(patch []patchElement) (DiffElement, []patchElement, er
 		if err != nil {
 			return d, nil, err
 		}
+		if isAppend(d.Path) && hasContext(d) {
+			// Context is relative to the edit position but the tests of
+			// a JSON Patch are absolute: an append has no index to
+			// relate them to, so they cannot be honoured.
+			return d, nil, fmt.Errorf("JSON Patch append (-) cannot be combined with context tests")
+		}
 		d.Add = []JsonNode{addValue}
 		return d, patch[1:], nil
 	default:
